@@ -315,6 +315,89 @@ def threads_world(aiu, w, prefix=(), expect=None):
     return x
 
 
+def reused_decorator(aiu, deco_kind, form, opt, prog):
+    """One decorator-with-options object applied to TWO functions (form 'deco') against each function wrapped
+    directly with the same options (form 'direct'). prog: [(gap, which function 0/1, argument)]."""
+    log = []
+
+    async def main():
+        loop = asyncio.get_running_loop()
+        world = loop._world
+        if deco_kind == 'cache':
+            store = {} if opt else None
+
+            def mkraw(tag):
+                async def raw(x):
+                    log.append(('invoked', tag, x, world.now))
+                    await asyncio.sleep(0)
+                    return (tag, x)
+                return raw
+            kw = {'cache': store} if opt else {}
+            if form == 'deco':
+                d = aiu.threadsafe_async_cache(**kw)
+                fs = [d(mkraw('f')), d(mkraw('g'))]
+            else:
+                fs = [aiu.threadsafe_async_cache(mkraw('f'), **kw), aiu.threadsafe_async_cache(mkraw('g'), **kw)]
+            for gap, which, x in prog:
+                if gap:
+                    await asyncio.sleep(gap)
+                log.append(('result', which, x, await fs[which](x)))
+            log.append(('store', None if store is None else len(store)))
+        elif deco_kind == 'buffer':
+            def mkfunc(tag):
+                async def func(args):
+                    log.append(('called', tag, world.now, tuple(sorted(args))))
+                return func
+            if form == 'deco':
+                d = aiu.buffer_until_timeout(timeout=opt)
+                fs = [d(mkfunc('f')), d(mkfunc('g'))]
+            else:
+                fs = [aiu.buffer_until_timeout(mkfunc('f'), timeout=opt),
+                      aiu.buffer_until_timeout(mkfunc('g'), timeout=opt)]
+            for gap, which, x in prog:
+                if gap:
+                    await asyncio.sleep(gap)
+                fs[which](x)
+            await asyncio.sleep(20.0)
+        else:
+            def mkbatch(tag):
+                async def batch(keys):
+                    ks = list(keys)
+                    log.append(('batch', tag, world.now, tuple(ks)))
+                    for k in ks:
+                        yield k, (tag, k)
+                return batch
+            if form == 'deco':
+                d = aiu.async_background_batcher(**opt)
+                fs = [d(mkbatch('f')), d(mkbatch('g'))]
+            else:
+                fs = [aiu.async_background_batcher(mkbatch('f'), **opt),
+                      aiu.async_background_batcher(mkbatch('g'), **opt)]
+
+            async def caller(i, which, x):
+                try:
+                    log.append(('result', i, which, x, await fs[which](x), world.now))
+                except BaseException as e:   # noqa
+                    log.append(('exc', i, which, x, type(e).__name__, world.now))
+            tasks = []
+            for i, (gap, which, x) in enumerate(prog):
+                if gap:
+                    await asyncio.sleep(gap)
+                tasks.append(loop.create_task(caller(i, which, x)))
+            await asyncio.wait(tasks)
+            await asyncio.sleep(5.0)
+        return True
+    run = run_main(main)
+    return (tuple(log), run.hang, repr(run.error))
+
+
+def reused_programs(n):
+    for whichs in itertools.product((0, 1), repeat=n):
+        for xs in itertools.product((1, 2), repeat=n):
+            for gs in itertools.product((0.0, 0.5), repeat=n - 1):
+                yield [(g, w_, x) for g, w_, x in zip((0.0,) + gs, whichs, xs)]
+
+
 def two_wrappers(aiu, form_pair, opts_a, opts_b, order):
     """The same batch function wrapped twice with different options, both used in one loop."""
     obs = B.Obs()
@@ -361,6 +444,28 @@ def run_case(item):
                                      f'batchers with the same options give {ref[0]}',
                                      {'mode': 'twowrap', 'oa': oa, 'ob': ob, 'order': order, 'forms': fp})
         st.sample({'mode': 'two wrappers of one batch function with different options in one loop'})
+        return st
+    if kind == 'reused':
+        cfgs = [('cache', False), ('cache', True), ('buffer', 0.25), ('buffer', 3.0),
+                ('batcher', {}), ('batcher', {'max_batch_size': 2, 'batch_timeout': 1.0}),
+                ('batcher', {'retention_timeout': 2.0})]
+        for dk, opt in cfgs:
+            diverse = False
+            for n in (2, 3):
+                for prog in reused_programs(n):
+                    ref = reused_decorator(aiu, dk, 'direct', opt, prog)
+                    got = reused_decorator(aiu, dk, 'deco', opt, prog)
+                    st.executions += 2
+                    st.transitions += 2 * n
+                    st.sig(('reused', dk, repr(opt), tuple(prog), got))
+                    if got != ref:
+                        st.violation('reused_decorator_differs_from_direct_form',
+                                     f'one {dk} decorator object made with options {opt!r} applied to two functions, '
+                                     f'program (gap, function, argument) {prog}: {got[0]} but wrapping each function '
+                                     f'directly with the same options gives {ref[0]}',
+                                     {'mode': 'reused', 'deco': dk, 'opt': opt, 'prog': prog})
+        st.sample({'mode': 'one decorator-with-options object applied to two functions vs direct wrapping',
+                   'configs': [repr(c) for c in cfgs]})
         return st
     if kind == 'threads':
         from mc import tx
@@ -496,7 +601,7 @@ def main(tier):
     names = list(BATCHER_OPTS)
     plan = [('batcher', ())] + [('batcher', (n,)) for n in names] + [('batcher', tuple(names))]
     plan += [('batcher', c) for c in itertools.combinations(names, 2)] if tier != 'quick' else []
-    plan += [('buffer', 0.25), ('buffer', 3.0), ('cache',), ('twowrap',)]
+    plan += [('buffer', 0.25), ('buffer', 3.0), ('cache',), ('twowrap',), ('reused',)]
     plan += [('multi', n, ko, R) for n in (1, 2, 3) for ko in (False, True) for R in (0.0, 2.0)]
     plan += [('alt', n, R, ln) for n in (2, 3) for R in (0.0, 2.0) for ln in ((2, 3, 4) if tier == 'quick' else (2, 3, 4, 5))]
     for nl, pb, rounds in ((2, 1, 2), (3, 1, 1)) if tier == 'quick' else ((2, 2, 2), (3, 1, 2)):
@@ -512,7 +617,8 @@ def main(tier):
               'a gap grid is run on the decorator-with-options form, the direct form and (batcher, buffer) the '
               'class; complete virtual-time logs must be identical and must differ from the default '
               'configuration (sensitivity); a decorated batcher is then driven from 1..3 successive loops '
-              '(closed or kept open) with all 2-call programs per loop'),
+              '(closed or kept open) with all 2-call programs per loop; one decorator-with-options object applied to '
+              'two functions (all 2..3-call programs over both functions) must equal wrapping each directly'),
         assumptions=['virtual clock', 'concurrent use from 2..3 loops in threads: engine B, preemption bound 1 (thorough 2 for two loops)'])
     if rc != 1 and any(n.startswith('VACUOUS') for n in total.notes):
         print('machinery error: ' + '; '.join(sorted(total.notes)))
@@ -539,6 +645,13 @@ def replay(path):
         for b in x.result[0]:
             print('PROBLEM', b)
         return 1 if x.result[0] else 0
+    if doc['mode'] == 'reused':
+        prog = [tuple(x) for x in doc['prog']]
+        a = reused_decorator(aiu, doc['deco'], 'direct', doc['opt'], prog)
+        b = reused_decorator(aiu, doc['deco'], 'deco', doc['opt'], prog)
+        print('direct', a)
+        print('deco  ', b)
+        return 1 if a != b else 0
     if doc['mode'] == 'alternating':
         alternating_loops(aiu, doc['nloops'], [tuple(x) for x in doc['seq']], doc['R'], st)
     elif doc['mode'] == 'multi_loop':
